@@ -64,7 +64,11 @@ func main() {
 		os.Exit(2)
 	}
 	t0 := time.Now()
-	p, err := Load(*flagRepo, overlay)
+	var extraEnv []string
+	if a := os.Getenv("TPCHECK_GOARCH"); a != "" {
+		extraEnv = append(extraEnv, "GOARCH="+a, "GOOS=linux", "CGO_ENABLED=0")
+	}
+	p, err := Load(*flagRepo, overlay, extraEnv...)
 	if err != nil {
 		fmt.Printf("ERROR load: %v\n", err)
 		// a tree that does not type-check cannot be judged: failed check, no verdict
@@ -253,6 +257,37 @@ func runProperty(p *Prog, prop string, loadS float64) int {
 		fmt.Println(l)
 	}
 
+	// thorough tier: seeded variants must be caught, and a second build configuration must agree
+	var vres []variantResult
+	var cfgNotes []string
+	if *flagTier == "thorough" && *flagOverlay == "" && *flagRules == "" && os.Getenv("TPCHECK_GOARCH") == "" {
+		vres = runVariants(prop)
+		for _, r := range vres {
+			fmt.Printf("VARIANT %s expect=%v -> %s %v\n", r.Name, r.Rules, r.Outcome, r.Fired)
+			if r.Outcome == "MISSED" {
+				// the checker does not detect a confirmed breaking change it claims to detect: the machinery is broken, not the tree
+				fmt.Printf("ERROR variant %s of property %s is not detected by rule(s) %v\n", r.Name, prop, r.Rules)
+				machineryBroken = true
+			}
+		}
+		qv := map[string]bool{}
+		for _, in := range all {
+			if in.Verdict != Holds && in.Known == "" {
+				qv[in.Rule] = true
+			}
+		}
+		same, detail := runOtherConfig(prop, qv, "386")
+		cfgNotes = append(cfgNotes, detail)
+		fmt.Printf("CONFIG %s same=%v\n", detail, same)
+		if !same {
+			fmt.Printf("UNDECIDED rule=%s site=build-configuration at  :: verdicts differ between linux/amd64 and linux/386: %s\n", prop+".cfg", detail)
+			rp := filepath.Join(replayDir, fmt.Sprintf("%s-cfg-386.json", prop))
+			_ = writeJSON(rp, map[string]string{"property": prop, "detail": detail})
+			fmt.Printf("VIOLATION property=%s replay=%s\n", prop, rp)
+			nViol++
+		}
+	}
+
 	wall := time.Since(t0).Seconds() + loadS
 	nfn := len(p.ShippedFuncs())
 	fmt.Printf("SUMMARY property=%s tier=%s rules=%d instances=%d holds=%d known=%d violations=%d controls=%d shipped_pkgs=%d shipped_funcs=%d wall=%.1fs\n",
@@ -291,6 +326,8 @@ func runProperty(p *Prog, prop string, loadS float64) int {
 				"exhaustive":         false,
 				"checker_cmd":        "/verif/bin/tpcheck -prop " + prop + " -tier " + *flagTier,
 				"load_s":             loadS,
+				"variants":           vres,
+				"configurations":     append([]string{"linux/amd64 (default)"}, cfgNotes...),
 			},
 			Assumptions: assumptionsFor(prop),
 			WallS:       wall,
@@ -301,11 +338,16 @@ func runProperty(p *Prog, prop string, loadS float64) int {
 			return 2
 		}
 	}
+	if machineryBroken {
+		return 2
+	}
 	if nViol > 0 {
 		return 1
 	}
 	return 0
 }
+
+var machineryBroken bool
 
 func ruleText(id string) string {
 	for _, r := range rules {
